@@ -477,3 +477,182 @@ Section ZeroAngle.
       + ring.
   Qed.
 End ZeroAngle.
+
+(** ** the saturation: std::max / std::min on rationals *)
+Lemma rx_ltb_lt a b : rx_ltb a b = true <-> (a < b)%Qc.
+Proof.
+  unfold rx_ltb, Qclt. rewrite negb_true_iff. split.
+  - intros H. apply Qnot_le_lt. intro L. apply Qle_bool_iff in L. congruence.
+  - intros H. destruct (Qle_bool (this b) (this a)) eqn:E; [|reflexivity].
+    apply Qle_bool_iff in E. exfalso. exact (Qlt_not_le _ _ H E).
+Qed.
+Lemma rx_ltb_ge a b : rx_ltb a b = false <-> (b <= a)%Qc.
+Proof.
+  unfold rx_ltb, Qcle. rewrite negb_false_iff. apply Qle_bool_iff.
+Qed.
+
+Lemma rx_max_l a b : (a <= rx_max a b)%Qc.
+Proof. unfold rx_max. destruct (rx_ltb a b) eqn:E; [apply Qclt_le_weak, rx_ltb_lt, E|apply Qcle_refl]. Qed.
+Lemma rx_max_r a b : (b <= rx_max a b)%Qc.
+Proof. unfold rx_max. destruct (rx_ltb a b) eqn:E; [apply Qcle_refl|apply rx_ltb_ge, E]. Qed.
+Lemma rx_max_lub a b c : (a <= c)%Qc -> (b <= c)%Qc -> (rx_max a b <= c)%Qc.
+Proof. intros. unfold rx_max. destruct (rx_ltb a b); assumption. Qed.
+Lemma rx_min_l a b : (rx_min a b <= a)%Qc.
+Proof. unfold rx_min. destruct (rx_ltb b a) eqn:E; [apply Qclt_le_weak, rx_ltb_lt, E|apply Qcle_refl]. Qed.
+Lemma rx_min_r a b : (rx_min a b <= b)%Qc.
+Proof. unfold rx_min. destruct (rx_ltb b a) eqn:E; [apply Qcle_refl|apply rx_ltb_ge, E]. Qed.
+Lemma rx_min_glb a b c : (c <= a)%Qc -> (c <= b)%Qc -> (c <= rx_min a b)%Qc.
+Proof. intros. unfold rx_min. destruct (rx_ltb b a); assumption. Qed.
+
+Lemma rx_fold_max_ge l : forall init, (init <= fold_left rx_max l init)%Qc /\ (forall s, In s l -> (s <= fold_left rx_max l init)%Qc).
+Proof.
+  induction l as [|x l IH]; intros init; cbn [fold_left].
+  - split; [apply Qcle_refl|intros s []].
+  - destruct (IH (rx_max init x)) as [A B]. split.
+    + eapply Qcle_trans; [apply rx_max_l|exact A].
+    + intros s [E|Hs]; [subst; eapply Qcle_trans; [apply rx_max_r|exact A]|apply B, Hs].
+Qed.
+Lemma rx_fold_max_le l : forall init c, (init <= c)%Qc -> (forall s, In s l -> (s <= c)%Qc) -> (fold_left rx_max l init <= c)%Qc.
+Proof.
+  induction l as [|x l IH]; intros init c Hi Hl; cbn [fold_left]; [exact Hi|].
+  apply IH; [apply rx_max_lub; [exact Hi|apply Hl; left; reflexivity]|intros s Hs; apply Hl; right; exact Hs].
+Qed.
+Lemma rx_fold_min_le l : forall init, (fold_left rx_min l init <= init)%Qc /\ (forall s, In s l -> (fold_left rx_min l init <= s)%Qc).
+Proof.
+  induction l as [|x l IH]; intros init; cbn [fold_left].
+  - split; [apply Qcle_refl|intros s []].
+  - destruct (IH (rx_min init x)) as [A B]. split.
+    + eapply Qcle_trans; [exact A|apply rx_min_l].
+    + intros s [E|Hs]; [subst; eapply Qcle_trans; [exact A|apply rx_min_r]|apply B, Hs].
+Qed.
+Lemma rx_fold_min_ge l : forall init c, (c <= init)%Qc -> (forall s, In s l -> (c <= s)%Qc) -> (c <= fold_left rx_min l init)%Qc.
+Proof.
+  induction l as [|x l IH]; intros init c Hi Hl; cbn [fold_left]; [exact Hi|].
+  apply IH; [apply rx_min_glb; [exact Hi|apply Hl; left; reflexivity]|intros s Hs; apply Hl; right; exact Hs].
+Qed.
+
+(** the clamped value lies between the lower and the upper limit the code computes ... *)
+Theorem rot_clamp_limits it E D v :
+  let smp := rot_centre_samples it E D in
+  (fold_left rx_min smp rx_flt_max <= rot_clamp it E D v <= fold_left rx_max smp rx_flt_min)%Qc.
+Proof.
+  cbv zeta. unfold rot_clamp. set (smp := rot_centre_samples it E D).
+  set (ceil := fold_left rx_max smp rx_flt_min). set (flor := fold_left rx_min smp rx_flt_max).
+  assert (Hfc : (flor <= ceil)%Qc).
+  { unfold rot_centre_samples, rot_centre_slots in smp. cbn [map] in smp.
+    match goal with smp := ?s :: _ |- _ =>
+      apply Qcle_trans with s; [apply (rx_fold_min_le smp rx_flt_max); left; reflexivity
+                               |apply (rx_fold_max_ge smp rx_flt_min); left; reflexivity] end. }
+  split; [apply rx_max_r|].
+  apply rx_max_lub; [apply rx_min_l|exact Hfc].
+Qed.
+
+(** ... which is "between the smallest and the largest of the four centre samples" as soon as one sample reaches
+    numeric_limits::min() = 2^-126 and none exceeds numeric_limits::max() *)
+Theorem rot_clamp_between it E D v lo hi :
+  (forall s, In s (rot_centre_samples it E D) -> (lo <= s <= hi)%Qc) ->
+  (exists s, In s (rot_centre_samples it E D) /\ (rx_flt_min <= s)%Qc) ->
+  (forall s, In s (rot_centre_samples it E D) -> (s <= rx_flt_max)%Qc) ->
+  (lo <= rot_clamp it E D v <= hi)%Qc.
+Proof.
+  intros Hb [s0 [Hs0 Hm]] HM. destruct (rot_clamp_limits it E D v) as [A B]. split.
+  - eapply Qcle_trans; [|exact A]. apply rx_fold_min_ge.
+    + eapply Qcle_trans; [apply (Hb s0 Hs0)|apply HM, Hs0].
+    + intros s Hs. apply (Hb s Hs).
+  - eapply Qcle_trans; [exact B|]. apply rx_fold_max_le.
+    + eapply Qcle_trans; [exact Hm|apply (Hb s0 Hs0)].
+    + intros s Hs. apply (Hb s Hs).
+Qed.
+
+(** without the first side condition the statement fails: four centre samples equal to zero and an interpolated
+    value of one give 2^-126, above every sample (the upper limit starts from numeric_limits<float>::min()) *)
+Theorem rot_clamp_between_samples_refuted :
+  exists (E : list (Z * Qc)) (D : Z -> Qc) (v : Qc),
+    (forall s, In s (rot_centre_samples 4 E D) -> s = 0%Qc) /\ rot_clamp 4 E D v = rx_flt_min /\ (0 < rx_flt_min)%Qc.
+Proof.
+  exists (map (fun _ => (0, 0%Qc)) (zrange 16)), (fun _ => 0%Qc), 1%Qc. split; [|split].
+  - intros s Hs. unfold rot_centre_samples in Hs. apply in_map_iff in Hs. destruct Hs as [x [E _]]. symmetry. exact E.
+  - vm_compute. reflexivity.
+  - vm_compute. reflexivity.
+Qed.
+
+(** ** apply: the generated cell bodies are the hand-written [rot_apply_cell] / [rot_clamp] *)
+Lemma rg_fold_ext {A} (f g : A -> Z -> A) l a : (forall x j, In j l -> f x j = g x j) -> fold_left f l a = fold_left g l a.
+Proof.
+  revert a. induction l as [|j l IH]; intros a H; cbn [fold_left]; [reflexivity|].
+  rewrite (H a j (or_introl eq_refl)). apply IH. intros x k Hk. apply H. right. exact Hk.
+Qed.
+Lemma rg_fold_sum (t : Z -> Qc) l acc : fold_left (fun a j => (a + t j)%Qc) l acc = (acc + qsum (map t l))%Qc.
+Proof.
+  revert acc. induction l as [|j l IH]; intros acc; cbn [fold_left map]; unfold qsum in *; cbn [fsum].
+  - change (@f0 QcF) with 0%Qc. ring.
+  - rewrite IH. change (@fadd QcF (t j) (@fsum QcF (map t l))) with (t j + @fsum QcF (map t l))%Qc. ring.
+Qed.
+Lemma rg_map_nth {A B} (f : A -> B) (E : list A) d :
+  map (fun j => f (nth (Z.to_nat j) E d)) (zrange (Z.of_nat (length E))) = map f E.
+Proof.
+  apply nth_ext with (d := f d) (d' := f d).
+  - rewrite !map_length. unfold zrange. rewrite map_length, seq_length. lia.
+  - intros n Hn. rewrite map_length in Hn. unfold zrange in *. rewrite map_length, seq_length in Hn.
+    rewrite (map_nth f E d n).
+    rewrite (nth_indep _ (f d) (f (nth (Z.to_nat 0) E d))) by (rewrite !map_length, seq_length; exact Hn).
+    rewrite (map_nth (fun j => f (nth (Z.to_nat j) E d)) (map Z.of_nat (seq 0 (Z.to_nat (Z.of_nat (length E))))) 0 n).
+    rewrite (nth_indep _ 0 (Z.of_nat 0)) by (rewrite map_length, seq_length; exact Hn).
+    rewrite map_nth, seq_nth by exact Hn. cbn [plus]. rewrite Nat2Z.id. reflexivity.
+Qed.
+
+Lemma rg_accumulate (H : Z -> Z * Qc) (D : Z -> Qc) (E : list (Z * Qc)) ip base :
+  length E = Z.to_nat ip -> 0 <= ip ->
+  (forall j, 0 <= j < ip -> H (base j) = nth (Z.to_nat j) E (0, 0%Qc)) ->
+  fold_left (fun a j => rg_id (a + rg_id (D (fst (H (base j))) * snd (H (base j))))%Qc) (zrange ip) 0%Qc = rot_apply_cell E D.
+Proof.
+  intros HL Hip Hrow.
+  rewrite (rg_fold_ext _ (fun a j => (a + (fun j => D (fst (nth (Z.to_nat j) E (0%Z, 0%Qc))) * snd (nth (Z.to_nat j) E (0%Z, 0%Qc)))%Qc j)%Qc)).
+  2:{ intros x j Hj. unfold zrange in Hj. apply in_map_iff in Hj. destruct Hj as [n [En Hn]]. apply in_seq in Hn.
+      unfold rg_id. rewrite Hrow by lia. reflexivity. }
+  rewrite rg_fold_sum. unfold rot_apply_cell.
+  replace ip with (Z.of_nat (length E)) by lia.
+  rewrite (rg_map_nth (fun h => (D (fst h) * snd h)%Qc) E (0, 0%Qc)). ring.
+Qed.
+
+Theorem rg_fly_cell_is_model xs ys it clamp (G : Z -> Z -> (Z -> Z * Qc) -> Z -> Z * Qc) hinfo D (E : list (Z * Qc)) q p :
+  length E = Z.to_nat (it * it) -> 0 <= it * it -> 0 <= q * ys + p < 2 ^ 32 ->
+  (forall old j, 0 <= j < it * it -> G q p old j = nth (Z.to_nat j) E (0, 0%Qc)) ->
+  gen_rot_fly_cell rg_id xs ys it (it * it) clamp G hinfo D q p = (q * ys + p, rot_apply_cell E D).
+Proof.
+  intros HL Hip Hc Hrow. unfold gen_rot_fly_cell. cbv zeta.
+  f_equal; [wrap_norm; apply rg_wrap32_small; exact Hc|].
+  apply (rg_accumulate (fun s => G q p (fun k => hinfo (0 + k)) (s - 0)) D E (it * it) (fun j => j) HL Hip).
+  intros j Hj. rewrite Z.sub_0_r. apply Hrow. exact Hj.
+Qed.
+
+Lemma rg_clamp_slot i x y : 0 <= i -> (i + 1) * 16 <= 2 ^ 32 -> 0 <= x * 4 + y < 16 -> 0 <= x -> 0 <= y ->
+  wrap32 (wrap32 (wrap32 (i * 16) + wrap32 (x * 4)) + y) = i * 16 + (x * 4 + y).
+Proof.
+  intros. rewrite (rg_wrap32_small (i * 16)) by lia. rewrite (rg_wrap32_small (x * 4)) by lia.
+  rewrite (rg_wrap32_small (i * 16 + x * 4)) by lia. rewrite rg_wrap32_small by lia. lia.
+Qed.
+
+Theorem rg_table_cell_is_model xs ys it clamp (H : Z -> Z * Qc) (D : Z -> Qc) (E : list (Z * Qc)) i :
+  valid_it it -> length E = Z.to_nat (it * it) -> 0 <= i -> (i + 1) * (it * it) <= 2 ^ 32 -> (clamp = true -> it = 4) ->
+  (forall j, 0 <= j < it * it -> H (i * (it * it) + j) = nth (Z.to_nat j) E (0, 0%Qc)) ->
+  gen_rot_table_cell rg_id xs ys it (it * it) clamp H D i = (i, rot_apply_cell_clamped it clamp E D).
+Proof.
+  intros Hv HL Hi Hb Hcl Hrow.
+  assert (Hip : 0 < it * it) by (destruct Hv as [A|[A|[A|A]]]; subst it; lia).
+  assert (Acc : fold_left (fun a j => rg_id (a + rg_id (D (fst (H (wrap32 (wrap32 (i * (it * it)) + j)%Z))) *
+                                                        snd (H (wrap32 (wrap32 (i * (it * it)) + j)%Z))))%Qc) (zrange (it * it)) 0%Qc
+                = rot_apply_cell E D).
+  { rewrite (rg_fold_ext _ (fun a j => rg_id (a + rg_id (D (fst (H (i * (it * it) + j)%Z)) * snd (H (i * (it * it) + j)%Z)))%Qc)).
+    - apply (rg_accumulate H D E (it * it) (fun j => i * (it * it) + j) HL); [lia|exact Hrow].
+    - intros x j Hj. unfold zrange in Hj. apply in_map_iff in Hj. destruct Hj as [n [En Hn]]. apply in_seq in Hn.
+      wrap_norm. rewrite rg_wrap32_small by nia. reflexivity. }
+  unfold gen_rot_table_cell, rot_apply_cell_clamped. destruct clamp.
+  - rewrite (Hcl eq_refl) in *. clear Hcl Hv.
+    cbv zeta. change (4 * 4) with 16 in *. rewrite Acc.
+    change (rx_span 1 (2 + 1 - 1)) with [1; 2]. cbn [fold_left].
+    rewrite !rg_clamp_slot by lia.
+    rewrite !Hrow by lia.
+    unfold rot_clamp, rot_centre_samples, rot_centre_slots. cbn [map fold_left]. reflexivity.
+  - cbv zeta. rewrite Acc. reflexivity.
+Qed.
